@@ -313,7 +313,7 @@ def rnd_el_pyth(rng, pspace):
 def flat_spaces(rng, tier):
     import odl
     sp = [odl.rn(1), odl.rn(2), odl.rn(3), odl.rn(5), odl.uniform_discr(0, 1, 4), odl.uniform_discr(0, 2, 2),
-          odl.uniform_discr([0, 0], [1, 1], (2, 2))]
+          odl.uniform_discr([0, 0], [1, 1], (2, 2)), odl.rn(3, weighting=4.0)]
     if tier != 'quick':
         sp += [odl.rn(8), odl.uniform_discr(0, 1, 8), odl.uniform_discr([0, 0], [2, 1], (2, 4)), odl.rn((2, 3))]
     return sp
